@@ -38,7 +38,7 @@ type Point struct {
 	Running        int // thread that ran last (-1: initial point)
 	RunningEnabled bool
 	Enabled        []int
-	Chosen         int // index into Enabled
+	Chosen         int      // index into Enabled
 	Labels         []string // pending operation of each enabled thread
 }
 
@@ -384,8 +384,8 @@ func (s *Sched) SharedWritten() map[string]bool {
 // Conflict is a pair of accesses to one location by two threads, at least one a
 // write, unordered by happens-before (program order + lock release/acquire).
 type Conflict struct {
-	Class      string
-	SiteA, SiteB string
+	Class          string
+	SiteA, SiteB   string
 	WriteA, WriteB bool
 }
 
